@@ -354,10 +354,9 @@ public:
                                 );
                 }
 
-                std::copy( histogram
-                         , histogram + this->_info._num_palette
-                         , &this->_info._histogram.front()
-                         );
+                this->_info._histogram.assign( histogram
+                                             , histogram + this->_info._num_palette
+                                             );
             }
         }
 
